@@ -52,6 +52,8 @@ SPACES = {
     "fin200": [("a", ["randint", 0, 9]), ("b", ["randint", 0, 9]), ("c", ["choice", ["x", "y"]]), ("k", ["const", 7])],
     # log-scaled floats whose bounds do not survive exp(log(.)) exactly; initial points exactly on the bounds
     "logb": [("lu", ["loguniform", 1e-5, 0.1]), ("rl", ["reverseloguniform", 0.1, 0.7]), ("i", ["randint", 0, 1])],
+    # domains with negative values (multiplicative perturbations move a negative value the other way)
+    "neg": [("u", ["uniform", -1.0, 1.0]), ("i", ["randint", -10, -1])],
     # grid with a float and a log float (num_samples given), full int range
     "gridf": [("u", ["uniform", 0.0, 3.0]), ("lu", ["loguniform", 0.01, 1.0]), ("i", ["randint", 1, 3])],
 }
@@ -91,6 +93,7 @@ P2E = {
     "finlog": {"none": None, "empty": [], "partial": [{"lo": 64}, {"li": 2, "lf": 8.0}]},
     "quant": {"none": None, "empty": [], "partial": [{"qu": 0.25}, {"qi": 8, "qli": 4}]},
     "logb": {"none": None, "onbound": [{"lu": 0.1, "rl": 0.1, "i": 0}, {"lu": 1e-5, "rl": 0.7, "i": 1}, {"lu": 0.1}]},
+    "neg": {"none": None, "nearbound": [{"u": -0.95, "i": -10}, {"u": 0.95, "i": -1}, {"u": -1.0, "i": -9}]},
     "fin200": {"none": None, "partial": [{"a": 3}, {"c": "y", "b": 0}, {"a": 3}], "castable": [{"a": 3.0, "b": 7.0}, {"b": 0.0}]},
     "gridf": {"none": None, "empty": [], "ongrid": [{"u": 0.5, "lu": 0.1 ** 1.5, "i": 3}, {"u": 2.5}],
               "partial": [{"i": 1}, {"u": 0.1}]},
